@@ -57,6 +57,9 @@ def check(run):
         b3 = run.borrow("C03", only=r"websocket-scheme|initiator-required",
                         why="a rule indexed under `https` / its domain hash must not match requests that lack that token")
         run.guard("C01.via.C03.3.check_options-table", cfg, lambda: _C03.rule_check_options(b3, F, cfg))
+        from . import C07 as _C07
+        b7 = run.borrow("C07", why="a rule that matches (and passes the tag gate) must be returned / collected by the list probe")
+        run.guard("C01.via.C07.2.gate-shape", cfg, lambda: _C07.rule_gate_shape(b7, F, cfg))
 
 
 def rule_store(run, F, cfg):
